@@ -52,7 +52,7 @@ def features(spec):
 
 
 def wl_trees(ctx, rng, case_no):
-    spec = SP.gen_spec(rng, depth=rng.choice([1, 2, 3, 4]), profile={})
+    spec = SP.gen_spec(rng, depth=rng.choice([1, 2, 3, 4]), profile={"vcenter": True})
     m = SP.structural_min(spec)
     if m > 200:
         ctx.count("skipped_m_gt_200")
@@ -73,12 +73,17 @@ def wl_trees(ctx, rng, case_no):
     if reuse:
         rng.shuffle(widths)
     for W in widths:
-        console = consoles.layout_console(W, legacy=legacy, ascii_only=ascii_only)
+        # "W cells available" reaches a renderable as options; a third of the renders hand W down on a WIDER console
+        # (how every container renders its children): whoever looks at the console's width instead shows here
+        wider = rng.choice([0, 0, 1, 40])
+        console = consoles.layout_console(W + wider, legacy=legacy, ascii_only=ascii_only)
         obj = shared if reuse else SP.build(spec)
         if reuse:
             ctx.count("re_renders_of_one_object")
         ctx.count("mon.render")
-        line_widths, lines = SP.render_lines_cells(console, obj)
+        if wider:
+            ctx.count("mon.render_with_options_narrower_than_console")
+        line_widths, lines = SP.render_lines_cells(console, obj, console.options.update(width=W) if wider else None)
         ctx.count("mon.line_width", len(line_widths))
         worst = max(line_widths or [0])
         ctx.hist("width_minus_m", min(W - m, 10))
@@ -87,7 +92,7 @@ def wl_trees(ctx, rng, case_no):
             feats = features(spec)
             mech = "line-wider-than-available:" + ("+".join(feats) if feats else "top=%s" % spec["k"])
             ctx.violation(mech, {"spec": spec, "width": W, "structural_min": m, "line": lines[i],
-                                 "line_cells": worst, "legacy_windows": legacy, "ascii_only": ascii_only,
+                                 "line_cells": worst, "legacy_windows": legacy, "ascii_only": ascii_only, "console_wider_than_options_by": wider,
                                  "same_object_rendered_before_at": [w for w in widths[:widths.index(W)]] if reuse else None})
         sig = (json.dumps(spec, sort_keys=True, ensure_ascii=False, default=str), W, legacy, ascii_only)
         ctx.case_done(sig, d >= 2 and (worst >= W or len(lines) > 3),
